@@ -228,6 +228,16 @@ func worker(id, tier string, idx, W int, seed int64, out string) {
 		wo.Failures = append(wo.Failures, Failure{Violation: v, Case: &c2, Digest: digestResults(ctx.Results), Seed: seed, Shrunk: shrunk})
 	}
 
+	// sameViolation re-evaluates a candidate (no statistics) and looks for the class being minimised
+	sameViolation := func(cs *Case, class string) (Violation, bool) {
+		for _, v := range evaluate(cs, nil) {
+			if v.Class == class {
+				return v, true
+			}
+		}
+		return Violation{}, false
+	}
+
 	// 1. systematic share
 	if prop.Systematic != nil {
 		for n, cs := range prop.Systematic(tier) {
@@ -239,8 +249,17 @@ func worker(id, tier string, idx, W int, seed int64, out string) {
 			vs := evaluate(cs, wo.Stats)
 			wo.Stats.Sample(sampleOf(cs), 3)
 			for _, v := range vs {
-				if len(wo.Failures) < 8 {
-					addFailure(cs, v, false)
+				if len(wo.Failures) < 8 && !seenFail[v.Key()] {
+					mc, mv, shrunk := cs, v, false
+					if cs.regen != nil {
+						mc, mv, shrunk = minimiseDraws(cs, v, sameViolation)
+					}
+					if pc, pv, ok := pruneSchedules(prop, mc, mv, sameViolation); ok {
+						mc, mv, shrunk = pc, pv, true
+					}
+					sameViolation(mc, mv.Class) // leave ctx.Results describing the minimised case
+					addFailure(mc, mv, shrunk)
+					seenFail[v.Key()] = true
 				}
 			}
 		}
@@ -300,6 +319,12 @@ func worker(id, tier string, idx, W int, seed int64, out string) {
 				t.Fatalf("%s", pick.Class)
 			})
 			if lastCase != nil {
+				if pc, pv, ok := pruneSchedules(prop, lastCase, lastV, sameViolation); ok {
+					lastCase, lastV = pc, pv
+				}
+				if _, ok := sameViolation(lastCase, lastV.Class); ok {
+					lastDigest = digestResults(ctx.Results)
+				}
 				if !seenFail[lastV.Key()] {
 					seenFail[lastV.Key()] = true
 					wo.Failures = append(wo.Failures, Failure{Violation: lastV, Case: lastCase, Digest: lastDigest, Seed: seed, Shrunk: true})
@@ -700,4 +725,136 @@ func clipN(s string, n int) string {
 		return s
 	}
 	return strings.ToValidUTF8(s[:n/2], "") + fmt.Sprintf(" ...[%d bytes omitted]... ", len(s)-n) + strings.ToValidUTF8(s[len(s)-n/2:], "")
+}
+
+// ---------------------------------------------------------------- minimisation
+
+// minimiseDraws shrinks the vector of draws a systematic case was generated
+// from (truncate, delete blocks, lower single values) while the same violation
+// class persists. Draws beyond the end of the vector read as the lower bound of
+// their range, so every shortened vector still generates a well-formed case.
+func minimiseDraws(cs *Case, v Violation, same func(*Case, string) (Violation, bool)) (*Case, Violation, bool) {
+	best := append([]int(nil), cs.draws...)
+	bestCase, bestV := cs, v
+	evals := 0
+	try := func(vals []int) bool {
+		if evals >= 600 {
+			return false
+		}
+		evals++
+		c := cs.regen(&fixedSrc{vals: vals})
+		c.regen, c.draws = cs.regen, vals
+		if nv, ok := same(c, v.Class); ok {
+			best, bestCase, bestV = vals, c, nv
+			return true
+		}
+		return false
+	}
+	for improved := true; improved && evals < 600; {
+		improved = false
+		for cut := len(best) / 2; cut >= 1; cut /= 2 {
+			for len(best) >= cut && try(append([]int(nil), best[:len(best)-cut]...)) {
+				improved = true
+			}
+		}
+		for size := len(best) / 2; size >= 1; size /= 2 {
+			for i := 0; i+size <= len(best); {
+				cand := append(append([]int(nil), best[:i]...), best[i+size:]...)
+				if try(cand) {
+					improved = true
+				} else {
+					i += size
+				}
+			}
+		}
+		for i := 0; i < len(best); i++ {
+			if best[i] == 0 {
+				continue
+			}
+			cand := append([]int(nil), best...)
+			cand[i] = 0
+			if try(cand) {
+				improved = true
+				continue
+			}
+			if best[i] > 1 || best[i] < -1 {
+				cand = append([]int(nil), best...)
+				cand[i] = best[i] / 2
+				if try(cand) {
+					improved = true
+				}
+			}
+		}
+	}
+	return bestCase, bestV, len(best) < len(cs.draws) || bestCase != cs
+}
+
+// pruneSchedules simplifies the schedules of a failing case directly (no
+// regeneration): drops runs that are not needed, then replaces map-order
+// decisions, chunk scripts, clock scripts, GC points and ballast by their
+// defaults, as long as the same violation class persists.
+func pruneSchedules(prop *Property, cs *Case, v Violation, same func(*Case, string) (Violation, bool)) (*Case, Violation, bool) {
+	cur := *cs
+	cur.Runs = append([]Run(nil), cs.Runs...)
+	curV := v
+	changed := false
+	accept := func(c Case) bool {
+		if nv, ok := same(&c, v.Class); ok {
+			cur, curV, changed = c, nv, true
+			return true
+		}
+		return false
+	}
+	if prop.PrunableRuns {
+		for i := len(cur.Runs) - 1; i >= 1 && len(cur.Runs) > 2; i-- {
+			c := cur
+			c.Runs = append(append([]Run(nil), cur.Runs[:i]...), cur.Runs[i+1:]...)
+			accept(c)
+		}
+	}
+	for i := range cur.Runs {
+		edit := func(f func(r *Run)) {
+			c := cur
+			c.Runs = append([]Run(nil), cur.Runs...)
+			f(&c.Runs[i])
+			accept(c)
+		}
+		r := cur.Runs[i].Cfg
+		if len(r.GCTicks) > 0 || r.Ballast > 0 {
+			edit(func(r *Run) { r.Cfg.GCTicks, r.Cfg.Ballast = nil, 0 })
+		}
+		if len(r.ClockStepsMs) > 0 || r.ClockNs != 0 || r.TZOffsetMin != 0 {
+			edit(func(r *Run) { r.Cfg.ClockStepsMs, r.Cfg.ClockNs, r.Cfg.TZOffsetMin = nil, 0, 0 })
+		}
+		if len(r.Chunks) > 0 {
+			edit(func(r *Run) { r.Cfg.Chunks = nil })
+		}
+		if r.Env != nil || r.Pid != 0 || r.RandSeed != 0 {
+			edit(func(r *Run) { r.Cfg.Env, r.Cfg.Pid, r.Cfg.RandSeed = nil, 0, 0 })
+		}
+		// map-order decisions: all identity, then shorter, then one by one
+		if len(cur.Runs[i].Cfg.Orders) > 0 {
+			edit(func(r *Run) { r.Cfg.Orders = nil })
+			for n := len(cur.Runs[i].Cfg.Orders) / 2; n >= 1 && len(cur.Runs[i].Cfg.Orders) > 0; n /= 2 {
+				for len(cur.Runs[i].Cfg.Orders) >= n {
+					before := len(cur.Runs[i].Cfg.Orders)
+					edit(func(r *Run) { r.Cfg.Orders = append([]int(nil), r.Cfg.Orders[:len(r.Cfg.Orders)-n]...) })
+					if len(cur.Runs[i].Cfg.Orders) == before {
+						break
+					}
+				}
+			}
+			for j := 0; j < len(cur.Runs[i].Cfg.Orders) && j < 64; j++ {
+				if cur.Runs[i].Cfg.Orders[j] != 0 {
+					jj := j
+					edit(func(r *Run) {
+						o := append([]int(nil), r.Cfg.Orders...)
+						o[jj] = 0
+						r.Cfg.Orders = o
+					})
+				}
+			}
+		}
+	}
+	return &cur, curV, changed
 }
